@@ -172,6 +172,16 @@ Example C08_axis_nonvacuous : forall (O : Ops), Laws O ->
   (forall d, (-1 <= d <= 1)%Z -> (cyc (g_nye O (ex_geom O)) 1 d < g_ny O (ex_geom O))%nat).
 Proof. exact axis_example. Qed.
 
+(* ... and the theorems applied to it: rows 0 and 2 of the returned flux footprint coincide, and the first moment of
+   rows 0..2 about the tower row 1 is zero *)
+Example C08_axis_example_applied : forall (O : Ops), Laws O ->
+  (forall i, (i < 3)%nat ->
+     get3 O (field O (ex_args O) (ex_geom O) snd (table O (ex_args O) (ex_geom O))) 0 0 i
+     = get3 O (field O (ex_args O) (ex_geom O) snd (table O (ex_args O) (ex_geom O))) 0 2 i) /\
+  wsum O 1 (fun d => cmul O (cofZ O d) (csum O (map (fun i =>
+     get3 O (field O (ex_args O) (ex_geom O) snd (table O (ex_args O) (ex_geom O))) 0 (cyc 4 1 d) i) [0; 1; 2]%nat))) = c0 O.
+Proof. exact axis_example_applied. Qed.
+
 Goal True. idtac "THEOREM C08_axis_symmetric_footprint". Abort. Print Assumptions C08_axis_symmetric_footprint.
 Goal True. idtac "THEOREM C08_axis_symmetric_footprint_defect". Abort. Print Assumptions C08_axis_symmetric_footprint_defect.
 Goal True. idtac "THEOREM C08_axis_symmetric_footprint_odd". Abort. Print Assumptions C08_axis_symmetric_footprint_odd.
@@ -185,6 +195,7 @@ Goal True. idtac "THEOREM C08_axis_symmetric_footprint_x_full". Abort. Print Ass
 Goal True. idtac "THEOREM C08_centroid_on_wind_axis_x_partial". Abort. Print Assumptions C08_centroid_on_wind_axis_x_partial.
 Goal True. idtac "THEOREM C08_centroid_on_wind_axis_x_noNyq_partial". Abort. Print Assumptions C08_centroid_on_wind_axis_x_noNyq_partial.
 Goal True. idtac "THEOREM C08_axis_nonvacuous". Abort. Print Assumptions C08_axis_nonvacuous.
+Goal True. idtac "THEOREM C08_axis_example_applied". Abort. Print Assumptions C08_axis_example_applied.
 
 (* ---------------------------------------------------------------- the hypothesis is what the interface produces *)
 (* over R: compute_wind_fields (C08_cardinals) and the profiles (C09_direction); env_wind E U wd :=
